@@ -93,6 +93,9 @@ impl<T: Plain> Hazard for Vec<T> {
     fn hazard(&self) -> Option<&'static str> {
         // (features are ordered by cause: element type, empty elements, then length / escaping)
         if !self.is_empty() && std::any::type_name::<T>() != std::any::type_name::<String>() { return Some("seq-non-string") }
+        // `[""]` and `[]` are both written as the empty section (limit of the comma-joined format, recorded finding);
+        // any other empty element is representable (`a=,` / `a=,x` / `a=x,`)
+        if self.len() == 1 && self[0].plain().unwrap_or_default().is_empty() { return Some("seq-single-empty-element") }
         if self.iter().any(|e| e.plain().unwrap_or_default().is_empty()) { return Some("seq-empty-element") }
         if self.len() >= 2 { return Some("seq-len2+") }
         if self.len() == 1 {
